@@ -27,9 +27,20 @@ class State:
         self.path_nth = 1
         self.path_seen = 0
         self.log = []              # (kind, path) of every point met
+        # flavour of the injected error: with an errno (what the OS reports), or "plain": an OSError built
+        # from a message only (what numpy's tofile raises on a short write: "N requested and M written")
+        self.plain = False
 
 
 S = State()
+
+
+def _fail(kind, path, note="injected"):
+    if S.plain:
+        raise OSError(f"4096 requested and 0 written ({note}, no errno): {path}")
+    if kind == "write":
+        raise OSError(errno.ENOSPC, f"No space left on device ({note})", str(path))
+    raise OSError(errno.EACCES, f"Permission denied ({note})", str(path))
 
 
 def _point(kind, path):
@@ -42,17 +53,13 @@ def _point(kind, path):
         if S.path_seen == S.path_nth:
             S.injected = (kind, str(path))
             S.bad_paths.add(str(path))
-            if kind == "write":
-                raise OSError(errno.ENOSPC, "No space left on device (injected)", str(path))
-            raise OSError(errno.EACCES, "Permission denied (injected)", str(path))
+            _fail(kind, path)
     if str(path) in S.bad_paths:
-        raise OSError(errno.ENOSPC, "No space left on device (injected, sticky)", str(path))
+        _fail("write", path, "injected, sticky")
     if S.fail_at == S.n:
         S.injected = (kind, str(path))
         S.bad_paths.add(str(path))
-        if kind == "write":
-            raise OSError(errno.ENOSPC, "No space left on device (injected)", str(path))
-        raise OSError(errno.EACCES, "Permission denied (injected)", str(path))
+        _fail(kind, path)
 
 
 class WProxy:
